@@ -210,6 +210,15 @@ class Runaway(Exception):
     pass
 
 
+import enum as _enum
+
+
+class _OtherStatus(_enum.Enum):
+    """a plugin's own status enumeration; its first member has the value of DispatchReturn.INTERRUPT"""
+    READY = 1
+    BUSY = 2
+
+
 def run_disp_impl(case):
     """case: ninst, beh (per handler: list of (res, [reop])), ops"""
     log = []
@@ -316,6 +325,10 @@ def run_disp_impl(case):
             res, ops = table[min(n, len(table) - 1)]
             for o in ops:
                 reop(o)
+            if res == "none" and case.get("odd_results"):
+                # "anything but INTERRUPT lets the call go on": members of other enumerations (one of them valued like
+                # INTERRUPT), numbers, booleans and strings are not INTERRUPT
+                return [None, _OtherStatus.READY, 1, True, "INTERRUPT", _OtherStatus.BUSY, 1.0, DispatchReturn.CONTINUE][total[0] % 8]
             return RES[res]
         return handler
     # one function object per (handler, kind): the same handler id may be registered for several kinds
